@@ -325,6 +325,16 @@ func execute(kind, scratch string, steps []step, f faultSpec) (*result, error) {
 		w.faults.Plan[f.K] = stores.Crash
 	case "fail":
 		w.faults.Plan[f.K] = stores.Fail
+	case "ctx-ends":
+		// the context the running SubscribeWithReplay was called with ends at this store operation
+		w.faults.Plan[f.K] = stores.Gate
+		w.faults.OnGate = func(op stores.OpRec) {
+			if w.inSub >= 0 {
+				if c := w.subCancel[w.inSub]; c != nil {
+					c()
+				}
+			}
+		}
 	case "interleave":
 		w.faults.Plan[f.K] = stores.Gate
 		w.faults.OnGate = func(op stores.OpRec) {
@@ -605,8 +615,8 @@ func TestC12(t *testing.T) {
 				run.Sample(map[string]any{"store": c.kind, "steps": steps, "store_ops": base.nOps, "history_len": len(base.log)})
 			}
 			for k := 0; k < base.nOps; k++ {
-				for _, kind := range []string{"crash", "fail", "interleave"} {
-					if kind == "interleave" && !base.subOp[k] {
+				for _, kind := range []string{"crash", "fail", "interleave", "ctx-ends"} {
+					if (kind == "interleave" || kind == "ctx-ends") && !base.subOp[k] {
 						continue
 					}
 					f := faultSpec{Kind: kind, K: k}
